@@ -9,7 +9,8 @@ Open Scope Z_scope.
 
 Record st := { lastp : list (key * list Z); resp : list Z (* endpoints that sent a stateless response *);
                connected : list key; born : list key (* one entry per incarnation *);
-               closed : list key (* close() called locally *) }.
+               closed : list key (* close() called locally *);
+               genuine : list key (* received an intact genuine datagram *); lossy : bool }.
 
 (** frames of kind [j] (stats index of tx; rx is j+1) *)
 Definition le_tx (rxp txp : list Z) (j : nat) : bool := sf rxp (j + 1) <=? sf txp j.
@@ -29,7 +30,7 @@ Definition final_ok (s : st) : bool :=
     end) (lastp s).
 
 Definition step (s : st) (r : list Z) : option st :=
-  if tag r =? 8 then Some {| lastp := aset (lastp s) (rkey r) r; resp := resp s; connected := connected s; born := born s; closed := closed s |}
+  if tag r =? 8 then Some {| lastp := aset (lastp s) (rkey r) r; resp := resp s; connected := connected s; born := born s; closed := closed s; genuine := genuine s; lossy := lossy s |}
   else if tag r =? 2 then
     (* routing: a datagram produced by connection [origin] is handed to that connection only *)
     let out := fld r 5 in
@@ -37,17 +38,23 @@ Definition step (s : st) (r : list Z) : option st :=
     (* a replayed Initial whose connection is gone legitimately opens a fresh attempt
        (index 255: no pair identity); genuine and in-flight duplicates must reach their owner *)
     let fresh_attempt := (out =? 2) && ((fld r 9 =? 5) || (fld r 9 =? 6)) in
-    if ((out =? 1) || (out =? 2)) && (0 <=? origin) && negb ((fld r 6) mod 1000 =? origin) && negb fresh_attempt then None
-    else if out =? 3 then Some {| lastp := lastp s; resp := rep r :: resp s; connected := connected s; born := born s; closed := closed s |}
+    (* a corrupted datagram (pkind 3) may carry a damaged CID and reach another connection, which
+       then fails to authenticate it: only intact copies are judged *)
+    if ((out =? 1) || (out =? 2)) && (0 <=? origin) && negb (fld r 9 =? 3)
+       && negb ((fld r 6) mod 1000 =? origin mod 1000) && negb fresh_attempt then None
+    else if out =? 3 then Some {| lastp := lastp s; resp := rep r :: resp s; connected := connected s; born := born s; closed := closed s; genuine := genuine s; lossy := lossy s |}
+    else if (out =? 1) && ((fld r 9 =? 0) || (fld r 9 =? 2)) then
+      Some {| lastp := lastp s; resp := resp s; connected := connected s; born := born s; closed := closed s;
+              genuine := (rep r, fld r 6) :: genuine s; lossy := lossy s |}
     else Some s
   else if (tag r =? 3) && ((fld r 4 =? 20) || (fld r 4 =? 21)) then
     (* a new incarnation under this pair index has not connected yet *)
     Some {| lastp := lastp s; resp := resp s;
             connected := filter (fun k => negb (key_eqb k (rkey r))) (connected s);
-            born := rkey r :: born s; closed := closed s |}
+            born := rkey r :: born s; closed := closed s; genuine := genuine s; lossy := lossy s |}
   else if (tag r =? 3) && (fld r 4 =? 11) then
     Some {| lastp := lastp s; resp := resp s; connected := connected s; born := born s;
-            closed := rkey r :: closed s |}
+            closed := rkey r :: closed s; genuine := genuine s; lossy := lossy s |}
   else if tag r =? 11 then None
   else if tag r =? 4 then
     if (fld r 4 =? 3) && (ridx r <? 255) then
@@ -58,14 +65,18 @@ Definition step (s : st) (r : list Z) : option st :=
       else if (fld r 5 =? 3) && (fld r 6 =? 12) && existsb (key_eqb (1 - rep r, ridx r)) (closed s) then Some s
       (* the peer closed but its close packet was lost or corrupted: timing out is all that is left *)
       else if (fld r 5 =? 6) && existsb (key_eqb (1 - rep r, ridx r)) (closed s) then Some s
+      (* a Version Negotiation packet may end a client that has not yet accepted any server packet *)
+      else if (fld r 5 =? 1) && (rep r =? 0) && negb (existsb (key_eqb (rkey r)) (genuine s)) then Some s
+      (* heavy corruption or loss on the path is a denial of service by loss, not a forgery *)
+      else if (fld r 5 =? 6) && lossy s then Some s
       (* a replayed Initial opens a fresh attempt that can only time out *)
       else if (fld r 5 =? 6) && negb (existsb (key_eqb (rkey r)) (connected s)) then Some s
       else None
-    else if fld r 4 =? 2 then Some {| lastp := lastp s; resp := resp s; connected := rkey r :: connected s; born := born s; closed := closed s |}
+    else if fld r 4 =? 2 then Some {| lastp := lastp s; resp := resp s; connected := rkey r :: connected s; born := born s; closed := closed s; genuine := genuine s; lossy := lossy s |}
     else Some s
   else if tag r =? 10 then
     if final_ok s then Some s else None
   else Some s.
 
 Definition monitor (i : ops) (o : outs) : option Z :=
-  snd (run_from step 0 {| lastp := []; resp := []; connected := []; born := []; closed := [] |} o).
+  snd (run_from step 0 {| lastp := []; resp := []; connected := []; born := []; closed := []; genuine := []; lossy := (100 <=? param i 6 0) || (100 <=? param i 2 0) |} o).
